@@ -48,6 +48,7 @@ std::shared_ptr<ASAM::CMP::Packet> TECMP::Converter::ConvertCaptureModulePayload
 {
     vp_assert(false, "C02: a capture-module status shorter than its fixed part is handed to the converter (out-of-bounds field reads)");
     vp_assert(false, "C15: a capture-module status shorter than its fixed part is handed to the converter");
+    vp_assert(false, "C20: a capture-module status shorter than its fixed part is handed to the converter (serial / version strings built from bytes beyond the message)");
     return nullptr;
 }
 #endif
